@@ -16,7 +16,7 @@ Open Scope N_scope.
    10 XSDT 11 MCFG 12 MADT 13 SRAT 14 SLIT 15 HMAT 16 PPTT 17 RHCT 18 RIMT 19 VIOT 20 CEDT 21 HEST 22 RQSC
    23 Tpm2 24 TpmServer1_2 25 TpmClient1_2 26 FADT 27 BERT 28 SPCR 29 FACS 30 RSDP 31 Sdt
    40 one AML term; 41 a pair of AML terms (alternative constructions) *)
-Definition run_case (md : mode) (comp : N) (c : sx) : list ev :=
+Definition run_case0 (md : mode) (comp : N) (c : sx) : list ev :=
   match comp with
   | 1 => ck_case c
   | 2 => pkglen_case md c
@@ -33,6 +33,11 @@ Definition run_case (md : mode) (comp : N) (c : sx) : list ev :=
   | 40 => aml_case md c | 41 => aml_pair_case md c
   | _ => [EvPanic]
   end.
+
+(* components 100 + k (C14): the case of component k observed through every sink; the harness appends the number of sinks
+   whose observations differed from the plain vector's, the model expects 0 *)
+Definition run_case (md : mode) (comp : N) (c : sx) : list ev :=
+  if 100 <=? comp then run_case0 md (comp - 100) c ++ [EvNum 0] else run_case0 md comp c.
 
 Definition spec_of (comp : N) : tspec :=
   match comp with
@@ -62,6 +67,7 @@ Definition c02_table_oracle (comp : N) (c : sx) (evs : list ev) : bool :=
 
 (* prop is the numeric part of the property id (C17 -> 17) *)
 Definition oracle (prop comp : N) (c : sx) (impl : list ev) : bool :=
+  if 100 <=? comp then match last impl EvPanic with EvNum 0 => true | _ => false end else
   if is_table comp then
     match prop with
     | 1 => c01_table_oracle comp c impl
